@@ -9,7 +9,7 @@ RULE = ('logical lists (passwords with leading/trailing/inner spaces, non-ASCII,
         'count-prefixed (adjacent duplicates collapsed) / prefixed+hex, LF or CRLF line ends, with junk lines interleaved at the same positions in every rendering '
         '(blank, TAB, every C0 control incl. VT/FF/FS/GS/RS, U+0085/U+2028/U+2029, undecodable bytes, malformed $HEX[]); (a) the real read_password() sequence and '
         'counters equal an LF-only reference reader, (b) the three passes of one run_trainer see the same sequence, (c) rulesets trained from all renderings are '
-        'byte-identical modulo uuid/filename. non-trivial = list with a junk line or a password needing hex/space care; distinct by hash(list, junk, encoding)')
+        'byte-identical modulo uuid/filename, also with a --multiword pre-training word list (the same plain file for every rendering). non-trivial = list with a junk line or a password needing hex/space care; distinct by hash(list, junk, encoding)')
 SHARDS = {'quick': 4, 'thorough': 16}
 N = {'quick': 30, 'thorough': 900}
 
@@ -31,8 +31,19 @@ def gen_case(rng):
     for _ in range(rng.randint(0, 6)):
         kind = rng.choice(['blank', 'tab', 'ctrl', 'ctrl', 'ctrl', 'nel', 'ls', 'ps', 'badbytes', 'badhex', 'hexctrl'])
         junk.append([rng.randrange(len(items) + 1), kind, rng.choice(JUNK_CTRL), rng.choice(['ab%scd', '%stail', 'head%s', 'a%sb%sc'])])
-    return {'items': [[p, k] for p, k in items], 'junk': junk, 'encoding': enc, 'eol': rng.choice(['\n', '\n', '\r\n']),
+    case = {'items': [[p, k] for p, k in items], 'junk': junk, 'encoding': enc, 'eol': rng.choice(['\n', '\n', '\r\n']),
             'coverage': rng.choice([0.6, 1.0, 0.3]), 'ngram': rng.choice([2, 3, 4]), 'alphabet': 100, 'max_len': 21, 'hseed': rng.getrandbits(32)}
+    # --multiword: a plain pre-training word list, the same file for every rendering; the list holds a few alpha runs that are split only because of it
+    if rng.random() < 0.4:
+        words = rng.sample(MW_WORDS, rng.randint(2, 5))
+        for _ in range(rng.randint(1, 3)):
+            a, b = rng.sample(words, 2)
+            pw = rng.choice([a + b, a.capitalize() + b, a + b + str(rng.randint(0, 99)), '!' + a + b + a])
+            case['items'].insert(rng.randrange(len(case['items']) + 1), [pw, rng.choice([1, 1, 2, 3])])
+        case['multiword'] = words + rng.sample(['x', 'abc', '12 twelve', '7 seven', 'spam spam', '3'], rng.randint(0, 3))
+    return case
+
+MW_WORDS = ['horse', 'battery', 'staple', 'correct', 'river', 'stone', 'wall', 'king', 'blue', 'fish', 'tank', 'monkey', 'dragon', 'love', 'star']
 
 def junk_bytes(j, enc):
     pos, kind, ctrl, pat = j
@@ -100,6 +111,7 @@ def check_case(run, case):
     enc = case['encoding']
     logical = [p for p, k in case['items'] for _ in range(k) if oracles.valid_password(p)]
     digests = {}
+    mw_notes = {}
     nontriv = bool(case['junk']) or any(p != p.strip() or must_hex(p) for p, k in case['items'])
     for mode in ['plain', 'hex', 'mix', 'prefix', 'prefixhex']:
         data = render(case, mode, rng)
@@ -127,7 +139,8 @@ def check_case(run, case):
                 run.violation(f'rendering {mode}: counters num_passwords={fi.num_passwords} num_encoding_errors={fi.num_encoding_errors}, reference {npw}/{nerr}', case); return
             os.remove(tf)
             # (b) + (c) full training
-            res = trainer.train(data, path, encoding=enc, coverage=case['coverage'], ngram=case['ngram'], alphabet_size=case['alphabet'],
+            mwdata = ''.join(w + case['eol'] for w in case['multiword']).encode(enc) if case.get('multiword') else None
+            res = trainer.train(data, path, multiword_data=mwdata, encoding=enc, coverage=case['coverage'], ngram=case['ngram'], alphabet_size=case['alphabet'],
                                 max_len=case['max_len'], prefixcount=prefix)
             if not res.ok:
                 run.ev('trainings_not_completed')
@@ -142,6 +155,12 @@ def check_case(run, case):
             if len({(p['num_passwords'], p['num_encoding_errors']) for p in res.passes}) != 1:
                 run.violation(f'rendering {mode}: the three passes disagree on the counters', case, observed=[(p['num_passwords'], p['num_encoding_errors']) for p in res.passes]); return
             run.ev('three_pass_comparisons')
+            if mwdata is not None:
+                # diagnostic only (the deciding oracle is the comparison of the trained rulesets below): how was the pre-training word list read?
+                mexp = oracles.reference_reader(mwdata, enc, False)[0]
+                if res.multiword_pass is None or res.multiword_pass['yielded'] != mexp:
+                    mw_notes[mode] = f'--multiword list read as {None if res.multiword_pass is None else res.multiword_pass["yielded"][:6]} under rendering {mode}, a plain reader gives {mexp[:6]}'
+                run.ev('multiword_trainings')
             # nothing from a junk line may leak into the ruleset
             leaked = [pw for pw, _ in res.segmented if pw not in set(logical)]
             if leaked:
@@ -150,14 +169,18 @@ def check_case(run, case):
         finally:
             repo.drop_rules(name)
     # the real CLI with --prefixcount on the prefixed rendering must give the same tree (argument plumbing of -e / --prefixcount)
-    if digests.get('prefixhex') is not None and rng.random() < 0.25:
+    if digests.get('prefixhex') is not None and rng.random() < (0.5 if case.get('multiword') else 0.25):
         sdir = repo.scratch()
         tf = os.path.join(sdir, f'c19cli_{os.getpid()}.txt')
         nm = f'c19cli_{os.getpid()}'
         open(tf, 'wb').write(render(case, 'prefixhex', rng))
         try:
+            extra = []
+            if case.get('multiword'):
+                open(tf + '.mw', 'wb').write(''.join(w + case['eol'] for w in case['multiword']).encode(enc))
+                extra = ['--multiword', tf + '.mw']
             out, err, rc, to = cli.run_cli('trainer.py', ['-r', nm, '-t', tf, '-e', enc, '--prefixcount', '-c', str(case['coverage']), '-n', str(case['ngram']),
-                                                           '-a', str(case['alphabet'])], stdin_mode='devnull')
+                                                           '-a', str(case['alphabet'])] + extra, stdin_mode='devnull')
             run.ev('trainer_cli_runs')
             p = os.path.join(sdir, 'Rules', nm)
             if not to and os.path.exists(os.path.join(p, 'Grammar', 'grammar.txt')):
@@ -168,6 +191,8 @@ def check_case(run, case):
                 run.ev('cli_prefixcount_trainings_identical')
         finally:
             os.remove(tf)
+            if os.path.exists(tf + '.mw'):
+                os.remove(tf + '.mw')
             import shutil
             shutil.rmtree(os.path.join(sdir, 'Rules', nm), ignore_errors=True)
     live = {m: d for m, d in digests.items() if d is not None}
@@ -176,7 +201,7 @@ def check_case(run, case):
         for m, d in live.items():
             if d != live[ref_mode]:
                 diff = sorted(k for k in set(d) | set(live[ref_mode]) if d.get(k) != live[ref_mode].get(k))
-                run.violation(f'rulesets trained from renderings {ref_mode} and {m} differ in {diff[:5]}', case, observed=diff); return
+                run.violation(f'rulesets trained from renderings {ref_mode} and {m} differ in {diff[:5]}' + (' (' + '; '.join(mw_notes.values()) + ')' if mw_notes else ''), case, observed=diff); return
         run.ev('rendering_sets_identical')
     run.case(h([case['items'], case['junk'], enc]) if nontriv else None)
     for j in case['junk']:
@@ -185,7 +210,7 @@ def check_case(run, case):
                 'plain_rendering_head': render(case, 'plain', rng)[:80].decode('latin-1'), 'prefix_rendering_head': render(case, 'prefixhex', rng)[:80].decode('latin-1')})
 
 def run(run, rng):
-    run.required_events = ['reader_runs', 'trainings', 'three_pass_comparisons', 'rendering_sets_identical']
+    run.required_events = ['reader_runs', 'trainings', 'three_pass_comparisons', 'rendering_sets_identical', 'multiword_trainings']
     run.min_distinct = 10
     run.assumptions = ['a lone CR inside a line (legacy Mac line end) is not generated: the codec reader treats it as a line end, an LF-only reader would not',
                        'count prefixes are plain ASCII integers', 'number_of_encoding_errors is part of the compared config.ini, so junk lines are rendered at the same positions in every rendering',
